@@ -25,7 +25,8 @@ def FLOORS(tier):
     f = {"temperature-range-calls": 600 if q else 20000, "temperature:no-variables": 40, "temperature:zero-prob": 80,
          "temperature:equal-probs": 40, "constant-model": 60, "raw-repeated-labels": 40, "real-coefficients": 150,
          "temperature:stale-model": 20, "second-look-checks": 500 if q else 20000, "second-look:cancel-all": 40, "second-look:clear": 40, "exact-arithmetic": 100,
-         "dict-with-zero-coefficients": 60, "temperature:dict-with-zero-coefficients": 20}
+         "dict-with-zero-coefficients": 60, "temperature:dict-with-zero-coefficients": 20, "raw-diagonal-keys": 100,
+         "temperature:single-scale-model": 80}
     for fn in FN:
         f["fn:" + fn] = 300 if q else 15000
     return f
@@ -93,8 +94,22 @@ def case(ctx, rng, idx):
         terms = {(): rng.choice(coefs)} if rng.random() < 0.7 else {}
         ctx.cat("constant-model")
     else:
-        raw = tn == "dict" and rng.random() < 0.5 and not d2
+        raw = tn == "dict" and rng.random() < 0.5
         terms = gen.rand_terms(rng, labs, maxd, coefs=coefs, raw=raw, lo=1, hi=9)
+        if raw and d2 and rng.random() < 0.6:
+            # the quadratic functions on a full-matrix style dict: diagonal keys (i, i) next to (i,), both orientations
+            items = list(terms.items())
+            for x in labs[:3]:
+                items.append(((x, x), rng.choice(coefs)))
+                items.append(((x,), rng.choice(coefs)))
+            for (k, v) in list(items):
+                if len(k) == 2 and k[0] != k[1] and rng.random() < 0.5:
+                    items.append(((k[1], k[0]), rng.choice(coefs)))
+            rng.shuffle(items)
+            terms = {}
+            for k, v in items:
+                terms.setdefault(k, v)
+            ctx.cat("raw-diagonal-keys")
         if raw and any(len(set(k)) < len(k) for k in terms):
             ctx.cat("raw-repeated-labels")
     m = dict(terms) if tn == "dict" else gen.model_of(getattr(L, tn), terms)
@@ -152,6 +167,18 @@ def temperature(ctx, rng):
         ctx.cat("temperature:no-variables")
     else:
         terms = gen.rand_terms(rng, labs, maxd, lo=1, hi=6)
+        if rng.random() < 0.25:
+            # largest and smallest energy change coincide: one term, or disjoint terms of equal magnitude
+            c = rng.choice(gen.DYADIC + [3, 7])
+            ls = list(labs)
+            rng.shuffle(ls)
+            terms = {}
+            while ls:
+                k = tuple(ls.pop() for _ in range(min(len(ls), rng.randint(1, maxd))))
+                terms[k] = c * rng.choice([1, -1])
+                if rng.random() < 0.5:
+                    break
+            ctx.cat("temperature:single-scale-model")
     m = dict(terms) if tn == "dict" else gen.model_of(getattr(L, tn), terms)
     if tn == "dict" and rng.random() < 0.2:
         if rng.random() < 0.5:
@@ -184,7 +211,7 @@ def temperature(ctx, rng):
         kw.update(start_flip_prob=0, end_flip_prob=0)
         ctx.cat("temperature:zero-prob")
     elif style == "equal":
-        v = rng.choice([0.5, 0.01, 0.2])
+        v = rng.choice([0.5, 0.01, 0.2] + [rng.randint(1, 99) / 100 for _ in range(6)])
         kw.update(start_flip_prob=v, end_flip_prob=v)
         ctx.cat("temperature:equal-probs")
     w = {"function": "anneal_temperature_range", "type": tn, "terms": dict(m), "kwargs": kw, "stale": stale}
